@@ -133,7 +133,8 @@ SPECS = {
                               ["L[(L[@grammar]).grammar.axiom] != 0"],
                               ["L[(L[@grammar]).grammar.end_marker] != 0"],
                               ["L[(L[@grammar]).grammar.axiom] == symb_find_by_repr(read_rule())"],
-                              ["any(L[(L[@grammar]).grammar.axiom] == symb_find_by_repr(L[(L[&out0(read_rule)])]) | L[(L[@grammar]).grammar.end_marker] == symb_find_by_repr(L[(L[&out0(read_rule)])]))"]],
+                              # the symbol looked at is *rhs (pointer walk) or rhs[i] / a local holding it
+                              ["re:^any\\(L\\[\\(L\\[@grammar\\]\\)\\.grammar\\.axiom\\] == symb_find_by_repr\\((.*)\\) \\| L\\[\\(L\\[@grammar\\]\\)\\.grammar\\.end_marker\\] == symb_find_by_repr\\(\\1\\)\\)$"]],
     "YAEP_NO_RULES": [["L[(L[@grammar]).grammar.axiom] == 0", "read_rule() == 0"]],
     "YAEP_TERM_IN_RULE_LHS": [["L[(symb_find_by_repr(read_rule())).symb.term_p] != 0"]],
     "YAEP_INCORRECT_TRANSLATION": [["L[&out1(read_rule)] == 0", "L[&out3(read_rule)] != 0", "L[(L[&out3(read_rule)])[1]] >= 0", "L[(L[&out3(read_rule)])] >= 0"]],
@@ -164,10 +165,10 @@ ALLOWED_EXTRA = {
     "YAEP_REPEATED_TERM_DECL": [r"^L\[&out0\(read_terminal\)\] >= 0$"],
     "YAEP_REPEATED_TERM_CODE": [r"^L\[&out0\(read_terminal\)\] >= 0$", r"^symb_find_by_repr\(read_terminal\(\)\) == 0$", r"^symb_find_by_code\(L\[&out0\(read_terminal\)\]\) != 0$"],
     "YAEP_TERM_IN_RULE_LHS": [r"^symb_find_by_repr\(read_rule\(\)\) != 0$"],
-    "YAEP_FIXED_NAME_USAGE": [r"^symb_find_by_repr\(read_rule\(\)\) != 0$", r"^L\[\(symb_find_by_repr\(read_rule\(\)\)\)\.symb\.term_p\] == 0$", r"^L\[\(L\[&out0\(read_rule\)\]\)\] != 0$",
-                              r"^symb_find_by_repr\(L\[\(L\[&out0\(read_rule\)\]\)\]\) != 0$"],
-    "YAEP_INCORRECT_SYMBOL_NUMBER": [r"^L\[&out3\(read_rule\)\] != 0$", r"^L\[\(L\[&out0\(read_rule\)\]\)\] == 0$"],
-    "YAEP_REPEATED_SYMBOL_NUMBER": [r"^L\[&out3\(read_rule\)\] != 0$", r"^L\[\(L\[&out0\(read_rule\)\]\)\] == 0$"],
+    "YAEP_FIXED_NAME_USAGE": [r"^symb_find_by_repr\(read_rule\(\)\) != 0$", r"^L\[\(symb_find_by_repr\(read_rule\(\)\)\)\.symb\.term_p\] == 0$", r"^L\[\(L\[&out0\(read_rule\)\]\)(\[\w+\])?\] != 0$",
+                              r"^symb_find_by_repr\(L\[\(L\[&out0\(read_rule\)\]\)(\[\w+\])?\]\) != 0$"],
+    "YAEP_INCORRECT_SYMBOL_NUMBER": [r"^L\[&out3\(read_rule\)\] != 0$", r"^L\[\(L\[&out0\(read_rule\)\]\)(\[\w+\])?\] == 0$"],
+    "YAEP_REPEATED_SYMBOL_NUMBER": [r"^L\[&out3\(read_rule\)\] != 0$", r"^L\[\(L\[&out0\(read_rule\)\]\)(\[\w+\])?\] == 0$"],
 }
 
 
@@ -239,6 +240,9 @@ def rule_code_table(ctx, rep, config="c-lib"):
         cat = set(a for c in conds for a in _atoms(c))
         for spec in SPECS[cname]:
             sat = set(a for c in spec if not c.startswith(("re:", "n2re:")) for a in _atoms(c))
+            lits_ = [c for c in spec if not c.startswith(("re:", "n2re:"))]
+            if lits_ and all(_negated(c) in conds for c in lits_):
+                continue
             if sat and sat <= cat and (near is None or all(_has(conds, c) for c in spec if not c.startswith(("re:", "n2re:")))):
                 near = spec
         if near is not None:
@@ -791,3 +795,15 @@ def _only_constants(f, h, L):
         else:
             return False
     return True
+
+
+def _negated(c):
+    if c.endswith(" != 0"):
+        return c[:-5] + " == 0"
+    if c.endswith(" == 0"):
+        return c[:-5] + " != 0"
+    if " == " in c:
+        return c.replace(" == ", " != ", 1)
+    if " != " in c:
+        return c.replace(" != ", " == ", 1)
+    return "not(" + c + ")"
